@@ -177,6 +177,11 @@ class SymEval(object):
     if isinstance(n, ast.Dict) and all(isinstance(k, ast.Constant) for k in n.keys):
       return ('dict',) + tuple(('item', ('const', k.value), self.ev(v, env, fn)) for k, v in zip(n.keys, n.values))
     if isinstance(n, ast.Attribute):
+      if isinstance(n.value, ast.Name) and n.value.id in ('self', 'cls') and n.value.id not in env and fn is not None and \
+         getattr(fn, 'cls', None) is not None and isinstance(n.ctx, ast.Load) and n.attr.isupper():
+        cv = class_constant(n, fn)          # self.PROTOCOL / cls.PROTOCOL: a class-level literal no method rebinds
+        if cv is not None and isinstance(cv, (int, str)) and not isinstance(cv, bool):
+          return ('const', cv)
       return ('attr', self.ev(n.value, env, fn), n.attr)
     if isinstance(n, ast.Subscript):
       b = self.ev(n.value, env, fn)
